@@ -1,1 +1,262 @@
-//! (filled in by the C12/C14 work) structure-aware byte mutators.
+//! Seeded structure-aware mutators over valid encodings (binary and JSON).
+
+use crate::rng::Pick;
+
+pub const INTERESTING: [u8; 10] = [0x00, 0x01, 0x02, 0x03, 0x05, 0x7f, 0x80, 0xed, 0xfe, 0xff];
+
+/// every single-bit flip
+pub fn bitflips(b: &[u8]) -> Vec<Vec<u8>> {
+    let mut out = Vec::with_capacity(b.len() * 8);
+    for i in 0..b.len() * 8 {
+        let mut v = b.to_vec();
+        v[i / 8] ^= 1 << (i % 8);
+        out.push(v);
+    }
+    out
+}
+
+/// every single-byte substitution at the given positions (255 alternatives each)
+pub fn byte_subs(b: &[u8], positions: &[usize]) -> Vec<Vec<u8>> {
+    let mut out = vec![];
+    for &p in positions {
+        if p >= b.len() {
+            continue;
+        }
+        for x in 0..=255u8 {
+            if x != b[p] {
+                let mut v = b.to_vec();
+                v[p] = x;
+                out.push(v);
+            }
+        }
+    }
+    out
+}
+
+pub fn truncations(b: &[u8]) -> Vec<Vec<u8>> {
+    (0..b.len()).map(|l| b[..l].to_vec()).collect()
+}
+
+pub fn varint(mut v: u128) -> Vec<u8> {
+    let mut out = vec![];
+    loop {
+        let byte = (v & 0x7f) as u8;
+        v >>= 7;
+        if v == 0 {
+            out.push(byte);
+            return out;
+        }
+        out.push(byte | 0x80);
+    }
+}
+
+/// one random structure-aware mutation
+pub fn mutate(b: &[u8], p: &mut Pick, corpus: &[Vec<u8>]) -> Vec<u8> {
+    let mut v = b.to_vec();
+    let rounds = 1 + p.below(3);
+    for _ in 0..rounds {
+        let op = p.below(14);
+        let len = v.len();
+        match op {
+            0 if len > 0 => {
+                let i = p.below(len * 8);
+                v[i / 8] ^= 1 << (i % 8);
+            }
+            1 if len > 0 => {
+                let i = p.below(len);
+                v[i] = INTERESTING[p.below(INTERESTING.len())];
+            }
+            2 if len > 0 => {
+                let i = p.below(len);
+                v[i] = p.u64() as u8;
+            }
+            3 if len > 0 => {
+                v.truncate(p.below(len));
+            }
+            4 => {
+                let n = 1 + p.below(40);
+                v.extend(p.bytes(n));
+            }
+            5 if len > 1 => {
+                // delete a chunk
+                let a = p.below(len);
+                let n = 1 + p.below((len - a).min(40));
+                v.drain(a..a + n);
+            }
+            6 if len > 1 => {
+                // duplicate a chunk
+                let a = p.below(len);
+                let n = 1 + p.below((len - a).min(70));
+                let chunk = v[a..a + n].to_vec();
+                let at = p.below(len);
+                v.splice(at..at, chunk);
+            }
+            7 if !corpus.is_empty() && len > 0 => {
+                // splice with another corpus entry (possibly another type / another ciphersuite)
+                let o = &corpus[p.below(corpus.len())];
+                if !o.is_empty() {
+                    let a = p.below(len);
+                    let c = p.below(o.len());
+                    v.truncate(a);
+                    v.extend_from_slice(&o[c..]);
+                }
+            }
+            8 if len > 0 => {
+                // length / count inflation: overwrite a byte near the front (where postcard keeps
+                // map and vector lengths) with a large varint
+                let big: [u128; 7] = [0x7f, 0x80, 0x3fff, 0xffff, 0x1_0000, 0xffff_ffff, u64::MAX as u128];
+                let pos = if p.coin() { p.below(len.min(12)) } else { p.below(len) };
+                let vi = varint(big[p.below(big.len())]);
+                v.splice(pos..pos + 1, vi);
+            }
+            9 if len > 0 => {
+                // fill a window with one byte
+                let a = p.below(len);
+                let n = 1 + p.below((len - a).min(64));
+                let x = INTERESTING[p.below(INTERESTING.len())];
+                for y in &mut v[a..a + n] {
+                    *y = x;
+                }
+            }
+            10 if len > 4 => {
+                // swap two windows
+                let n = 1 + p.below(len / 2);
+                let a = p.below(len - n + 1);
+                let c = p.below(len - n + 1);
+                for k in 0..n {
+                    v.swap(a + k, c + k);
+                }
+            }
+            11 => {
+                let n = p.below(4097);
+                v = p.bytes(n);
+            }
+            12 if len > 0 => {
+                // arithmetic on a byte
+                let i = p.below(len);
+                v[i] = v[i].wrapping_add(if p.coin() { 1 } else { 0xff });
+            }
+            _ => {
+                if len > 0 {
+                    let i = p.below(len.min(6));
+                    v[i] = p.u64() as u8;
+                }
+            }
+        }
+    }
+    v
+}
+
+/// JSON mutations at the value level and at the text level
+pub fn mutate_json(s: &str, p: &mut Pick) -> String {
+    use serde_json::Value;
+    let op = p.below(12);
+    if op < 8 {
+        if let Ok(mut v) = serde_json::from_str::<Value>(s) {
+            let mut paths = vec![];
+            collect_paths(&v, vec![], &mut paths);
+            if !paths.is_empty() {
+                let path = paths[p.below(paths.len())].clone();
+                if let Some(slot) = get_mut(&mut v, &path) {
+                    match op {
+                        0 => *slot = Value::Null,
+                        1 => *slot = Value::from(p.u64()),
+                        2 => *slot = Value::String(String::new()),
+                        3 => {
+                            // odd-length / non-hex / upper-case / too long hex
+                            if let Value::String(h) = slot {
+                                match p.below(6) {
+                                    0 => {
+                                        h.pop();
+                                    }
+                                    1 => h.push('g'),
+                                    2 => *h = h.to_uppercase(),
+                                    3 => h.push_str("00"),
+                                    4 => *h = "ff".repeat(h.len() / 2),
+                                    _ => *h = "00".repeat(h.len() / 2),
+                                }
+                            } else {
+                                *slot = Value::String("zz".into());
+                            }
+                        }
+                        4 => *slot = Value::Array(vec![slot.clone(), slot.clone()]),
+                        5 => {
+                            let mut m = serde_json::Map::new();
+                            m.insert("x".into(), slot.clone());
+                            *slot = Value::Object(m);
+                        }
+                        6 => *slot = serde_json::json!(-1),
+                        _ => *slot = serde_json::json!(1.5e300),
+                    }
+                }
+                if op == 7 {
+                    if let Value::Object(m) = &mut v {
+                        m.insert("unexpected_field".into(), Value::from(1));
+                    }
+                }
+                return v.to_string();
+            }
+        }
+    }
+    let bytes = s.as_bytes();
+    match op {
+        8 => {
+            // duplicate a key: repeat the first member
+            if let Some(pos) = s.find(',') {
+                let first = &s[1..pos];
+                return format!("{{{first},{}", &s[1..]);
+            }
+            s.to_string()
+        }
+        9 => {
+            let depth = [10usize, 200, 5000][p.below(3)];
+            format!("{}{}{}", "[".repeat(depth), s, "]".repeat(depth))
+        }
+        10 => {
+            let l = p.below(bytes.len().max(1));
+            String::from_utf8_lossy(&bytes[..l]).to_string()
+        }
+        _ => {
+            let mut v = bytes.to_vec();
+            if !v.is_empty() {
+                let i = p.below(v.len());
+                v[i] = b"\"{}[]:,0a\\ "[p.below(11)];
+            }
+            String::from_utf8_lossy(&v).to_string()
+        }
+    }
+}
+
+fn collect_paths(v: &serde_json::Value, cur: Vec<String>, out: &mut Vec<Vec<String>>) {
+    match v {
+        serde_json::Value::Object(m) => {
+            for (k, x) in m {
+                let mut c = cur.clone();
+                c.push(k.clone());
+                out.push(c.clone());
+                collect_paths(x, c, out);
+            }
+        }
+        serde_json::Value::Array(a) => {
+            for (i, x) in a.iter().enumerate() {
+                let mut c = cur.clone();
+                c.push(i.to_string());
+                out.push(c.clone());
+                collect_paths(x, c, out);
+            }
+        }
+        _ => {}
+    }
+}
+
+fn get_mut<'a>(v: &'a mut serde_json::Value, path: &[String]) -> Option<&'a mut serde_json::Value> {
+    let mut cur = v;
+    for k in path {
+        cur = match cur {
+            serde_json::Value::Object(m) => m.get_mut(k)?,
+            serde_json::Value::Array(a) => a.get_mut(k.parse::<usize>().ok()?)?,
+            _ => return None,
+        };
+    }
+    Some(cur)
+}
